@@ -1394,6 +1394,10 @@ class World:
         if obj is None:
             raise HarnessError("unknown object %r" % td["obj"])
         cls = type(obj)
+        if op == "reinit":
+            # the constructor is run again on a live object (obj.__init__(...)): the object stays registered, its state is kept
+            tx.info = self._info(cls.__dict__.get("__init__"), cls, "ctor")
+            return (lambda: obj.__init__(t)), self.defining_unit(cls, "__init__"), td["obj"]
         if op == "call":
             raw = None
             for k in cls.__mro__:
